@@ -147,3 +147,342 @@ Proof.
       * intros q Hr. destruct n; [reflexivity|discriminate Hr].
       * intro Hr. apply pipe_exch_empty_dead. destruct n; [discriminate Hr|congruence].
 Qed.
+
+(* ------------------------------------------------------------------ (2) clean after a well-behaved call *)
+Lemma skip_eos_tail ls x : (match x with FEos => False | _ => True end) -> skip_eos (map FLog ls ++ [x; FEos]) = [].
+Proof. intro Hx. induction ls as [|m r IH]; [destruct x; try reflexivity; contradiction|exact IH]. Qed.
+
+Definition reply_item (u : unary_prog) : frame :=
+  match ures_of u with UOk v => FData {| rows := 1; tag := Z.to_N v; meta := [] |} | URaise e => FErr e end.
+
+Lemma reply_item_not_eos u : match reply_item u with FEos => False | _ => True end.
+Proof. unfold reply_item. destruct (ures_of u); exact I. Qed.
+
+Lemma unary_tail c u :
+  let '(es, o, r) := cli_read c (unary_reply u) in
+  skip_eos r = [] /\ runs_dry c (unary_reply u) = false /\
+  (c = CbRecord -> match o with RdData _ | RdFail _ => True | _ => False end).
+Proof.
+  unfold unary_reply. fold (reply_item u). pose proof (reply_item_not_eos u) as Hx.
+  induction (ulogs u) as [|m ls IH].
+  - cbn [map app]. unfold reply_item in *. destruct (ures_of u); cbn; repeat split; reflexivity.
+  - cbn [map app cli_read runs_dry]. destruct (log_event c m) as [e go] eqn:E. cbn [snd]. destruct go.
+    + destruct (cli_read c (map FLog ls ++ [reply_item u; FEos])) as [[es o] r]. exact IH.
+    + assert (Hs : skip_eos (map FLog ls ++ [reply_item u; FEos]) = []) by (apply skip_eos_tail; exact Hx).
+      destruct (lvl m) eqn:L; (split; [exact Hs|split; [reflexivity|]]); intros ->; try exact I;
+        unfold log_event in E; rewrite L in E; discriminate E.
+Qed.
+
+Lemma conn_unary_clean v u c : (unary_drains_any v || match c with CbRecord => true | CbRaise => false end)%bool = true ->
+  clean (snd (conn_unary v u c)) = true.
+Proof.
+  intro H. unfold conn_unary. pose proof (unary_tail c u) as T.
+  destruct (cli_read c (unary_reply u)) as [[es o] r]. destruct T as [Hs [Hd Hrec]].
+  destruct o; cbn [snd]; try (rewrite Hs; reflexivity);
+    (destruct (unary_drains_any v); [rewrite Hs, Hd; reflexivity|]);
+    (destruct c; [exfalso; exact (Hrec eq_refl)|discriminate H]).
+Qed.
+
+Lemma drain_rest_quiet ls q : quiet ls = true -> drain_rest CbRecord (map FLog ls ++ q) = drain_rest CbRecord q.
+Proof.
+  induction ls as [|m r IH]; intro H; [reflexivity|].
+  apply quiet_cons in H as [Hm Hr]. cbn [map app drain_rest]. unfold is_exc in Hm.
+  destruct (lvl m); try discriminate Hm; exact (IH Hr).
+Qed.
+
+Lemma drain_dry_quiet ls q : quiet ls = true -> drain_dry CbRecord (map FLog ls ++ q) = drain_dry CbRecord q.
+Proof.
+  induction ls as [|m r IH]; intro H; [reflexivity|].
+  apply quiet_cons in H as [Hm Hr]. cbn [map app drain_dry]. unfold is_exc in Hm.
+  destruct (lvl m); try discriminate Hm; exact (IH Hr).
+Qed.
+
+Lemma closed_conn_quiet ls : quiet ls = true -> clean (closed_conn CbRecord (map FLog ls) true) = true.
+Proof.
+  intro H. unfold closed_conn. rewrite (drain_rest_quiet ls [FEos] H), (drain_dry_quiet ls [FEos] H). reflexivity.
+Qed.
+
+Definition may_stop (n : option nat) (a : after) : Prop := n = None \/ a = AClose \/ a = ACancel.
+Lemma may_stop_pred n a : may_stop n a -> may_stop (opred n) a.
+Proof. intros [->|H]; [left; reflexivity|right; exact H]. Qed.
+
+Lemma conn_end_live_quiet a n ls : may_stop n a -> is_zero n = true -> quiet ls = true ->
+  clean (conn_end CbRecord a (BLive (map FLog ls) true)) = true.
+Proof.
+  intros [->|[->| ->]] Hz Hq; [discriminate Hz| |]; cbn [conn_end]; apply closed_conn_quiet; exact Hq.
+Qed.
+
+Lemma conn_prod_ended a sts n : may_stop n a ->
+  clean (conn_end CbRecord a (snd (conn_prod CbRecord false sts n [FEos]))) = true.
+Proof.
+  intro Hn.
+  assert (G : conn_prod CbRecord false sts n [FEos] = if is_zero n then ([], BLive [FEos] false) else ([EDone], BEos [] false))
+    by (destruct sts; destruct n as [[|k]|]; reflexivity).
+  rewrite G. destruct (is_zero n) eqn:Hz; [|reflexivity].
+  destruct Hn as [->|[->| ->]]; [discriminate Hz| |]; reflexivity.
+Qed.
+
+Lemma conn_prod_clean a : forall sts n l0,
+  quiet l0 = true -> steps_quiet sts = true -> may_stop n a ->
+  clean (conn_end CbRecord a (snd (conn_prod CbRecord true sts n (map FLog l0)))) = true.
+Proof.
+  induction sts as [|x r IH]; intros n l0 Hl0 Hq Hn.
+  - cbn [conn_prod]. destruct (is_zero n) eqn:Hz; [exact (conn_end_live_quiet a n l0 Hn Hz Hl0)|].
+    cbn [hd_error srv_tick exec_step app].
+    rewrite (cli_read_logs l0 [FEos] Hl0). cbn. reflexivity.
+  - unfold steps_quiet in Hq. simpl in Hq. apply andb_true_iff in Hq as [Hx Hr].
+    cbn [conn_prod]. destruct (is_zero n) eqn:Hz; [exact (conn_end_live_quiet a n l0 Hn Hz Hl0)|].
+    cbn [hd_error]. unfold srv_tick. rewrite (exec_prod x).
+    destruct (sraise x) as [e|].
+    + rewrite (cli_read_logs l0 _ Hl0). cbn. reflexivity.
+    + destruct (fin x) eqn:Hf.
+      * destruct (emit x) as [b|]; cbn [data_frames].
+        -- rewrite <- ?app_assoc. rewrite (cli_read_logs l0 _ Hl0).
+           rewrite (cli_read_logs (slogs x) _ Hx). cbn [app cli_read]. cbn [andb negb].
+           pose proof (conn_prod_ended a r (opred n) (may_stop_pred n a Hn)) as E.
+           destruct (conn_prod CbRecord false r (opred n) [FEos]) as [es' z]. exact E.
+        -- rewrite app_nil_r. rewrite <- ?app_assoc. rewrite (cli_read_logs l0 _ Hl0).
+           rewrite (cli_read_logs (slogs x) _ Hx). cbn. reflexivity.
+      * destruct (emit x) as [b|].
+        -- rewrite (cli_read_logs l0 _ Hl0).
+           rewrite (cli_read_logs (slogs x) _ Hx). cbn [app cli_read]. cbn [andb negb].
+           specialize (IH (opred n) [] eq_refl Hr (may_stop_pred n a Hn)). cbn [map] in IH.
+           destruct (conn_prod CbRecord true r (opred n) []) as [es' z]. exact IH.
+        -- rewrite (cli_read_logs l0 _ Hl0). cbn. reflexivity.
+Qed.
+
+Lemma conn_exch_clean a : (a = AClose \/ a = ACancel) -> forall n sts l0,
+  quiet l0 = true -> steps_quiet sts = true ->
+  clean (conn_end CbRecord a (snd (conn_exch CbRecord true sts n (map FLog l0)))) = true.
+Proof.
+  intro Ha. induction n as [|n IH]; intros sts l0 Hl0 Hq.
+  - cbn [conn_exch snd]. destruct Ha as [->| ->]; cbn [conn_end]; apply closed_conn_quiet; exact Hl0.
+  - destruct (hd_quiet sts Hq) as [Hh Ht].
+    cbn [conn_exch]. unfold srv_tick.
+    pose proof (exec_exch (hd_error sts)) as He.
+    destruct (exec_step false (hd_error sts)) as [fs fl|e].
+    + destruct He as [-> ->]. { destruct (hd_error sts); [unfold steps_quiet; simpl; unfold step_logs in Hh; rewrite Hh; reflexivity|reflexivity]. }
+      rewrite (cli_read_logs l0 _ Hl0). rewrite (cli_read_logs _ _ Hh). cbn [app cli_read andb negb].
+      specialize (IH (tl sts) [] eq_refl Ht). cbn [map] in IH.
+      destruct (conn_exch CbRecord true (tl sts) n []) as [es' z]. exact IH.
+    + rewrite (cli_read_logs l0 _ Hl0). cbn. destruct Ha as [->| ->]; reflexivity.
+Qed.
+
+Lemma snd_cut_pair (X : list event * conn) : snd (let '(t, c') := X in (cut t, c')) = snd X.
+Proof. destruct X; reflexivity. Qed.
+
+Lemma conn_stream_clean v sp producer h a reads (cbody : list frame -> list event * bend) :
+  quiet (ilogs sp) = true ->
+  (forall l0, quiet l0 = true -> clean (conn_end CbRecord a (snd (cbody (map FLog l0)))) = true) ->
+  (h = false -> eff_init v sp producer h = IOk) ->
+  eff_init v sp producer h <> IDead ->
+  clean (snd (conn_stream v sp producer h CbRecord a reads cbody)) = true.
+Proof.
+  intros Hil Hbody Hless Hdead. unfold conn_stream.
+  destruct (eff_init v sp producer h) as [|e|] eqn:E.
+  - assert (Hi : ires sp = InitOk /\ (h = true -> exists x, hdr sp = Some x)).
+    { unfold eff_init in E. destruct (ires sp) as [|e|]; [|discriminate E|destruct (checks_stream_result v); discriminate E].
+      split; [reflexivity|]. intros ->. destruct (hdr sp) as [x|]; [eexists; reflexivity|destruct (checks_stream_result v); discriminate E]. }
+    destruct Hi as [Hi Hh]. unfold srv_init. rewrite Hi.
+    destruct h.
+    + destruct (Hh eq_refl) as [x Hx]. rewrite Hx. cbn [fst].
+      rewrite (cli_read_logs (ilogs sp) _ Hil). cbn [cli_read skip_eos].
+      pose proof (Hbody [] eq_refl) as B. cbn [map] in B.
+      destruct (cbody []) as [es' z]. exact B.
+    + cbn [fst]. pose proof (Hbody (ilogs sp) Hil) as B.
+      destruct (cbody (map FLog (ilogs sp))) as [es' z]. exact B.
+  - destruct h; [reflexivity|]. specialize (Hless eq_refl). discriminate Hless.
+  - exfalso. apply Hdead. reflexivity.
+Qed.
+
+Theorem conn_clean_after : forall v p sc, wellbehaved v p sc = true -> clean (snd (conn_call v p sc)) = true.
+Proof.
+  intros v p sc H. unfold conn_call. rewrite snd_cut_pair.
+  unfold wellbehaved in H. apply andb_true_iff in H as [Hshape H].
+  destruct p as [u|sp]; destruct sc as [c|h k a c|h n a c]; try discriminate Hshape.
+  - apply conn_unary_clean. destruct c; exact H.
+  - repeat (apply andb_true_iff in H as [H ?]).
+    destruct c; try discriminate H.
+    match goal with Hq : no_exc_logs _ = true |- _ => cbn in Hq; apply andb_true_iff in Hq as [Hil Hst] end.
+    apply conn_stream_clean; try exact Hil.
+    + intros l0 Hl0. apply conn_prod_clean; try assumption.
+      destruct a; [left; reflexivity|right; left; reflexivity|right; right; reflexivity|discriminate].
+    + intros ->. match goal with Hx : negb (headerless_init_failure _ _ _) = true |- _ => cbn in Hx end.
+      destruct (eff_init v sp true false); try reflexivity; discriminate.
+    + match goal with Hx : negb (uncaught_fault _ _ _) = true |- _ => cbn in Hx end.
+      intro E. rewrite E in *. discriminate.
+  - repeat (apply andb_true_iff in H as [H ?]).
+    destruct c; try discriminate H.
+    match goal with Hq : no_exc_logs _ = true |- _ => cbn in Hq; apply andb_true_iff in Hq as [Hil Hst] end.
+    apply conn_stream_clean; try exact Hil.
+    + intros l0 Hl0. apply conn_exch_clean; try assumption.
+      destruct a; try discriminate; [left; reflexivity|right; reflexivity].
+    + intros ->. match goal with Hx : negb (headerless_init_failure _ _ _) = true |- _ => cbn in Hx end.
+      destruct (eff_init v sp false false); try reflexivity; discriminate.
+    + match goal with Hx : negb (uncaught_fault _ _ _) = true |- _ => cbn in Hx end.
+      intro E. rewrite E in *. discriminate.
+Qed.
+
+(* ------------------------------------------------------------------ (3) histories *)
+Definition wb (v : variant) (x : prog * script) : Prop := wellbehaved v (fst x) (snd x) = true.
+Definition own (v : variant) (x : prog * script) : outcome := Obs (run_pipe (norm v (snd x) (fst x)) (snd x)).
+
+Lemma conn_after_seq_dirty v c calls : clean c = false -> conn_after_seq v c calls = c.
+Proof. intro H. destruct calls as [|[p sc] r]; [reflexivity|]. cbn [conn_after_seq]. rewrite H. reflexivity. Qed.
+
+Lemma run_seq_app v : forall l1 c l2,
+  run_seq v c (l1 ++ l2) = run_seq v c l1 ++ run_seq v (conn_after_seq v c l1) l2.
+Proof.
+  induction l1 as [|[p sc] r IH]; intros c l2; [reflexivity|].
+  cbn [app run_seq conn_after_seq]. destruct (clean c) eqn:Hc.
+  - destruct (conn_call v p sc) as [t c'] eqn:E. cbn [snd app]. rewrite (IH c' l2). reflexivity.
+  - cbn [app]. rewrite (IH c l2). rewrite (conn_after_seq_dirty v c r Hc). reflexivity.
+Qed.
+
+Theorem run_seq_wb v : forall calls c, clean c = true -> Forall (wb v) calls ->
+  run_seq v c calls = map (own v) calls /\ clean (conn_after_seq v c calls) = true.
+Proof.
+  induction calls as [|[p sc] r IH]; intros c Hc Hall; [split; [reflexivity|exact Hc]|].
+  inversion Hall as [|x l Hx Hr]; subst. cbn [run_seq conn_after_seq map]. rewrite Hc.
+  pose proof (conn_call_obs v p sc) as Ho. pose proof (conn_clean_after v p sc Hx) as Hcl.
+  destruct (conn_call v p sc) as [t c'] eqn:E. cbn [fst snd] in *.
+  destruct (IH c' Hcl Hr) as [IH1 IH2]. split; [|exact IH2].
+  rewrite IH1. unfold own at 2. cbn [fst snd]. rewrite Ho. reflexivity.
+Qed.
+
+Theorem next_call_own v : forall hist p sc, Forall (wb v) hist ->
+  run_seq v conn0 (hist ++ [(p, sc)]) = map (own v) hist ++ [own v (p, sc)].
+Proof.
+  intros hist p sc Hall. rewrite run_seq_app.
+  destruct (run_seq_wb v hist conn0 eq_refl Hall) as [H1 H2]. rewrite H1. f_equal.
+  cbn [run_seq]. rewrite H2. pose proof (conn_call_obs v p sc) as Ho.
+  destruct (conn_call v p sc) as [t c']. cbn [fst] in Ho. rewrite Ho. reflexivity.
+Qed.
+
+(* ------------------------------------------------------------------ (4) progress: no well-behaved call blocks *)
+Local Transparent err_event.
+
+Lemma log_event_not_blocked c m : fst (log_event c m) <> EBlocked.
+Proof. unfold log_event. destruct (lvl m); destruct c; cbn; discriminate. Qed.
+
+Lemma deliver_no_blocked c : forall ls k, ~ In EBlocked k -> ~ In EBlocked (deliver c ls k).
+Proof.
+  induction ls as [|m r IH]; intros k Hk; [exact Hk|].
+  cbn [deliver]. pose proof (log_event_not_blocked c m) as Hm.
+  destruct (log_event c m) as [e go]. cbn [fst] in Hm. destruct go.
+  - intros [H|H]; [exact (Hm H)|exact (IH k Hk H)].
+  - intros [H|[]]. exact (Hm H).
+Qed.
+
+Ltac no_blocked := cbn; intuition discriminate.
+
+Lemma obs_prod_no_blocked c : forall sts n, ~ In EBlocked (obs_prod c sts n).
+Proof.
+  induction sts as [|x r IH]; intro n.
+  - cbn [obs_prod]. destruct (is_zero n); cbn; intuition discriminate.
+  - cbn [obs_prod]. destruct (is_zero n); [intros []|].
+    destruct (exec_step true (Some x)) as [fs [|]|e].
+    + apply deliver_no_blocked. destruct (emit x); [destruct (is_zero (opred n))|]; no_blocked.
+    + apply deliver_no_blocked. destruct (emit x); [|intros []].
+      intros [H|H]; [discriminate H|exact (IH (opred n) H)].
+    + unfold err_event. no_blocked.
+Qed.
+
+Lemma obs_exch_no_blocked c : forall n sts, ~ In EBlocked (obs_exch c sts n).
+Proof.
+  induction n as [|n IH]; intro sts; cbn [obs_exch]; [intros []|].
+  destruct (exec_step false (hd_error sts)) as [fs fl|e].
+  - apply deliver_no_blocked. intros [H|H]; [discriminate H|exact (IH (tl sts) H)].
+  - unfold err_event. no_blocked.
+Qed.
+
+Lemma observe_no_blocked p sc : ~ In EBlocked (observe p sc).
+Proof.
+  unfold observe. destruct p as [u|sp]; destruct sc as [c|h k a c|h n a c]; try (intros []).
+  - apply deliver_no_blocked. destruct (ures_of u); unfold err_event; no_blocked.
+  - destruct (ires sp); try (unfold err_event; no_blocked); apply deliver_no_blocked;
+      intro H; apply in_app_or in H as [H|H]; try exact (obs_prod_no_blocked c _ _ H);
+      unfold hdr_events in H; destruct h; try destruct (hdr sp); cbn in H; intuition discriminate.
+  - destruct (ires sp); try (unfold err_event; no_blocked); apply deliver_no_blocked;
+      intro H; apply in_app_or in H as [H|H]; try exact (obs_exch_no_blocked c _ _ H);
+      unfold hdr_events in H; destruct h; try destruct (hdr sp); cbn in H; intuition discriminate.
+Qed.
+
+Lemma in_cut (x : event) : forall t, In x (cut t) -> In x t.
+Proof.
+  induction t as [|e r IH]; [intros []|]. cbn [cut]. destruct (terminal e).
+  - intros [H|[]]. left; exact H.
+  - intros [H|H]; [left; exact H|right; exact (IH H)].
+Qed.
+
+Lemma cli_read_no_blocked c : forall q, runs_dry c q = false ->
+  ~ In EBlocked (fst (fst (cli_read c q))) /\ (forall e, snd (fst (cli_read c q)) = RdFail e -> e <> EBlocked).
+Proof.
+  induction q as [|f r IH]; intro H; [discriminate H|].
+  destruct f as [m|b|e|x|t|]; cbn [cli_read runs_dry] in *; try (split; [intros []|intros e' He; try discriminate He]).
+  - pose proof (log_event_not_blocked c m) as Hm. destruct (log_event c m) as [e go]. cbn [fst snd] in *. destruct go.
+    + specialize (IH H). destruct (cli_read c r) as [[es o] r']. cbn [fst snd] in *. destruct IH as [I1 I2].
+      split; [intros [X|X]; [exact (Hm X)|exact (I1 X)]|exact I2].
+    + destruct (lvl m); cbn [fst snd];
+        [split; [intros []|intros e' He; injection He as <-; exact Hm]
+        |split; [intros [X|[]]; exact (Hm X)|intros e' He; discriminate He]..].
+  - injection He as <-. unfold err_event. discriminate.
+Qed.
+
+Local Opaque err_event.
+
+Lemma unary_no_blocked u c : ~ In EBlocked (run_pipe (PUnary u) (SUnary c)).
+Proof.
+  intro H. change (PUnary u) with (norm v_old (SUnary c) (PUnary u)) in H. rewrite <- conn_call_obs in H.
+  unfold conn_call, conn_unary in H.
+  pose proof (unary_tail c u) as T. pose proof (cli_read_no_blocked c (unary_reply u)) as N.
+  destruct (cli_read c (unary_reply u)) as [[es o] r]. destruct T as [_ [Hd _]]. destruct (N Hd) as [N1 N2]. cbn [fst snd] in *.
+  destruct o; destruct (ures_of u); cbn [fst] in H; apply in_cut in H; try exact (N1 H);
+    apply in_app_or in H as [H|[H|[]]]; try exact (N1 H); try discriminate H; exact (N2 _ eq_refl H).
+Qed.
+
+Lemma wb_stream_refines v sp sc : (match sc with SUnary _ => False | _ => True end) ->
+  wellbehaved v (PStream sp) sc = true ->
+  legal (norm v sc (PStream sp)) sc = true /\ records sc = true /\ no_exc_logs (norm v sc (PStream sp)) = true
+  /\ pipe_reads (norm v sc (PStream sp)) sc = true.
+Proof.
+  intros Hs H. unfold wellbehaved in H. apply andb_true_iff in H as [Hshape H].
+  destruct sc as [c|h k a c|h n a c]; [contradiction| |];
+    repeat (apply andb_true_iff in H as [H ?]);
+    match goal with Hx : negb (headerless_init_failure _ _ _) = true |- _ => cbn in Hx; rename Hx into Hless end;
+    match goal with Hx : negb (uncaught_fault _ _ _) = true |- _ => cbn in Hx; rename Hx into Hdead end;
+    match goal with Hx : no_exc_logs _ = true |- _ => rename Hx into Hq end;
+    match goal with Hx : ends_call _ = true |- _ => rename Hx into He end.
+  - destruct (eff_init v sp true h) as [|e|] eqn:E; [| |discriminate Hdead].
+    + destruct (norm_ok v (SIter h k a c) sp E) as [Hn [Hi Hh]]. rewrite Hn.
+      repeat split; try assumption.
+      * unfold legal. cbn. rewrite Hi. cbn. destruct h; [destruct (Hh eq_refl) as [x ->]|]; reflexivity.
+      * unfold pipe_reads. cbn. rewrite Hi. destruct a; try discriminate He; destruct h; try reflexivity; destruct k; reflexivity.
+    + rewrite (norm_err v (SIter h k a c) sp e E).
+      assert (h = true) as -> by (destruct h; [reflexivity|rewrite E in Hless; discriminate Hless]).
+      repeat split; try assumption; reflexivity.
+  - destruct (eff_init v sp false h) as [|e|] eqn:E; [| |discriminate Hdead].
+    + destruct (norm_ok v (SExch h n a c) sp E) as [Hn [Hi Hh]]. rewrite Hn.
+      repeat split; try assumption.
+      * unfold legal. cbn. rewrite Hi. cbn. destruct a; try discriminate Hshape; destruct h; try (destruct (Hh eq_refl) as [x ->]); reflexivity.
+      * unfold pipe_reads. cbn. rewrite Hi. destruct a; try discriminate He; try discriminate Hshape; destruct h; try reflexivity; destruct n; reflexivity.
+    + rewrite (norm_err v (SExch h n a c) sp e E).
+      assert (h = true) as -> by (destruct h; [reflexivity|rewrite E in Hless; discriminate Hless]).
+      repeat split; try assumption; try reflexivity.
+Qed.
+
+Theorem wb_observe v p sc : (match sc with SUnary _ => False | _ => True end) -> wellbehaved v p sc = true ->
+  run_pipe (norm v sc p) sc = cut (observe (norm v sc p) sc).
+Proof.
+  intros Hs H. destruct p as [u|sp].
+  - unfold wellbehaved in H. destruct sc; try contradiction; discriminate H.
+  - destruct (wb_stream_refines v sp sc Hs H) as [H1 [H2 [H3 H4]]]. apply pipe_refines; assumption.
+Qed.
+
+Theorem wb_no_blocked v p sc : wellbehaved v p sc = true -> ~ In EBlocked (run_pipe (norm v sc p) sc).
+Proof.
+  intros H. destruct sc as [c|h k a c|h n a c].
+  - destruct p as [u|sp]; [apply unary_no_blocked|discriminate H].
+  - rewrite (wb_observe v p (SIter h k a c) I H). intro X. apply in_cut in X. exact (observe_no_blocked _ _ X).
+  - rewrite (wb_observe v p (SExch h n a c) I H). intro X. apply in_cut in X. exact (observe_no_blocked _ _ X).
+Qed.
